@@ -335,7 +335,7 @@ def fam_translate(sess, tool):
         sess.discharged('%s: %d patterns: L(filter regex) = L(reference) over all paths below the root' % (fam, len(pats)), family=fam, queries=len(pats))
 
 
-HG_REGEXPS = ['a', '^a', '^a/b', 'b$', '^a$', 'a/b', '^a.b', 'a.*b', '^ab/']
+HG_REGEXPS = ['a', '^a', '^a/b', 'b$', '^a$', 'a/b', '^a.b', 'a.*b', '^ab/', 'a|b', 'ab|r', '^(a|b)1']
 
 
 def fam_translate_hgrx(sess):
@@ -637,6 +637,23 @@ def fam_gitarg(sess):
                 tbl[key] = ctx.fresh_bool('git_ignores_%s_%s' % key)
             return ok(tbl[key])
 
+        @reg(r'matches_hgignore_filter$|matches_dockerignore_filter$', 'summary: matches_*ignore_filter(filters, path): symbolic verdict per path; the path text is recorded')
+        def matches_filter(ctx, args, callee):
+            t = ctx.deref(args[1])
+            tool = 'hg' if 'hgignore' in callee else 'docker'
+            canonical = isinstance(t, W.CanonStr)
+            node = t.node if canonical else ctx.ghost.get('abs_text_node', {}).get(getattr(t, 's', None))
+            ctx.ghost.setdefault('asked_' + tool, []).append((node, getattr(t, 's', repr(t)), canonical))
+            tbl = ctx.ghost.setdefault('verdicts', {})
+            key = (tool, 'canon' if canonical else 'own', node)
+            if key not in tbl:
+                tbl[key] = ctx.fresh_bool('%s_ignores_%s' % (tool, node))
+            return tbl[key]
+
+        @reg(r'search_upstream_hgignore$|search_upstream_dockerignore$', 'summary: search_upstream_*ignore (family upstream)')
+        def upstream_noop(ctx, args, callee):
+            return UNIT
+
         @reg(r'^(std::fs::)?DirEntry::file_name$', 'fs:DirEntry::file_name (the entry\'s own name)')
         def entry_file_name(ctx, args, callee):
             e = ctx.deref(args[0])
@@ -652,7 +669,9 @@ def fam_gitarg(sess):
             if isinstance(a, W.CanonPathV) and isinstance(b, W.Str) and b.s in ctx.ghost.get('name_of', {}):
                 n = ctx.ghost['name_of'][b.s]
                 if fs.known_parent.get(n) == a.node:
-                    return W.PathV(n, '/<canonical dir of n%s>/%s' % (a.node, b.s))
+                    txt = '/<canonical dir of n%s>/%s' % (a.node, b.s)
+                    ctx.ghost.setdefault('abs_text_node', {})[txt] = n
+                    return W.PathV(n, txt)
             b = W.as_path(ctx, args[1])
             return W.PathV(b.node, a.text + '/' + b.text, b.via_link)
 
@@ -680,6 +699,9 @@ def fam_gitarg(sess):
         root = W.mk_root(prog, 'R0', BitVecVal(0, 32), BitVecVal(0, 32), False)
         Fo = E.struct_fields(prog, 'RootOptions'); Fr = E.struct_fields(prog, 'Root')
         root.f[Fr.index('options')].f[Fo.index('gitignore')] = some(BoolVal(True))
+        # the hg and docker filters are asked about the same path text (their verdicts symbolic too: three independent mechanisms)
+        root.f[Fr.index('options')].f[Fo.index('hgignore')] = some(BoolVal(True))
+        root.f[Fr.index('options')].f[Fo.index('dockerignore')] = some(BoolVal(True))
         q = W.mk_query(prog, [root], BitVecVal(0, 32), ordered=False)
         return fs, W.run_exec_search(ctx, prog, q)
 
@@ -703,7 +725,22 @@ def fam_gitarg(sess):
             v = ver.get(('own', n))
             if v is not None:
                 cond.append(If(v, BitVecVal(0, 8), BitVecVal(1, 8)) == BitVecVal(trace.count(n), 8))
+        # an entry is reported exactly when none of the three mechanisms ignores it
+        cond = []
+        nodes = set(a[0] for a in asked) | {n_ for t_ in ('hg', 'docker') for (n_, _, c_) in ctx.ghost.get('asked_' + t_, []) if not c_ and n_ is not None}
+        for n in nodes:
+            vs = [ver.get(('own', n))] + [ver.get((t_, 'own', n)) for t_ in ('hg', 'docker')]
+            vs = [v_ for v_ in vs if v_ is not None]
+            if vs:
+                cond.append(If(Or(vs), BitVecVal(0, 8), BitVecVal(1, 8)) == BitVecVal(trace.count(n), 8))
         okrows = (not cond) or ctx.check(Not(And(cond))) == z3.unsat
+        for tool in ('hg', 'docker'):
+            for (node, text, canonical) in ctx.ghost.get('asked_' + tool, []):
+                if (canonical or not str(text).startswith('/')) and not box.get('viol_' + tool):
+                    box['viol_' + tool] = True; box['viol'] = True
+                    sess.violated('%s (%s)' % (fam, tool), 'gitarg/%s/%s' % (tool, 'canonical-path' if canonical else 'relative-path'),
+                                  'the %s filter is asked about %r (%s)' % (tool, text, 'the fully resolved path: a link is judged by the name of its target' if canonical else 'not absolute'),
+                                  {}, cli_replay_ownname(tool), fam)
         if (bad or not okrows) and not box.get('viol'):
             box['viol'] = True
             what = ('libgit2 is asked about %r (%s) for the entry %r' % (bad[0][1], 'the fully resolved path: a link is judged by its target' if bad[0][2] else 'relative to the current directory, not to the work tree', fs.text.get(bad[0][0]))) if bad else 'rows are not the entries libgit2 does not ignore'
@@ -711,6 +748,24 @@ def fam_gitarg(sess):
     ex.explore(run, on_path, time_budget=200)
     if not box.get('viol') and not box.get('bad'):
         sess.discharged('gitarg: is_path_ignored is asked about each entry\'s own path; the rows are the entries it does not ignore', family=fam, queries=box['paths'])
+
+
+def cli_replay_ownname(tool):
+    """`*.log` ignored; link.log -> real.txt must be omitted (its own name), alias.txt -> a.log must stay"""
+    def rep():
+        exe = common.native_binary()
+        d = os.path.realpath(tempfile.mkdtemp(prefix='verif-c20o-', dir=common.SCRATCH_ROOT))
+        try:
+            r = os.path.join(d, 'r'); os.makedirs(os.path.join(r, '.hg'))
+            open(os.path.join(r, '.hgignore'), 'w').write('syntax: glob\n*.log\n'); open(os.path.join(r, '.dockerignore'), 'w').write('*.log\n')
+            open(os.path.join(r, 'real.txt'), 'w').write('x'); open(os.path.join(r, 'a.log'), 'w').write('x')
+            os.symlink('real.txt', os.path.join(r, 'link.log')); os.symlink('a.log', os.path.join(r, 'alias.txt'))
+            p = subprocess.run([exe, 'name', 'from', r, tool + 'ignore'], env={'PATH': os.environ['PATH'], 'HOME': d, 'TZ': 'UTC'}, stdout=subprocess.PIPE, stderr=subprocess.PIPE, timeout=20)
+            rows = sorted(x for x in p.stdout.decode().split('\n')[:-1] if not x.startswith('.'))
+            return rows != ['alias.txt', 'real.txt'], 'name from r %signore (*.log ignored; link.log -> real.txt, alias.txt -> a.log) -> %r, by their own names: [alias.txt, real.txt]' % (tool, rows)
+        finally:
+            shutil.rmtree(d, ignore_errors=True)
+    return rep
 
 
 def cli_replay_gitarg():
